@@ -224,6 +224,20 @@ pub fn for_each_workspace(tier: Tier, ctx: &mut Ctx, mut f: impl FnMut(&mut Ctx,
             }
         }
     }
+    // 2a'. forward declarations first: three prefixes of two class statements, then every word of <= 2 statements
+    for prefix in ["class A;\nclass B;", "class A;\nclass B : A;", "class B;\nclass A : B;"] {
+        let total = tgv_core::words::count_upto(m as u64, 2);
+        for idx in 1..total {
+            tgv_core::words::decode(idx, m as u64, 2, &mut word);
+            if !ctx.mine() {
+                continue;
+            }
+            let text = format!("{prefix}\n{}", word.iter().map(|&i| menu[i].as_str()).collect::<Vec<_>>().join("\n"));
+            if !f(ctx, &WsCase::single(&text, "forward")) {
+                return;
+            }
+        }
+    }
     // 2b. diamonds: the root includes b and c, c includes b again; statements follow the includes
     let c_stmts = ["class CC : A;", "def cc : B { let f = 3; }", "defvar A = B;"];
     for bi in 0..m {
